@@ -191,6 +191,60 @@ class Bounds:
 
 LENOF = [None]
 PRED = [None]
+RETRANGE = [None]
+RET_SUMMARY = [{}]  # function path -> (lo, hi) of its return value, supplied by a rule that decides it (named where it is set)
+
+
+def _retrange_factory(F):
+    """(lo, hi) of the values a crate function returns over a product of argument ranges of at most 4096 points, by exact
+    evaluation of its MIR on every point (evalx); None when it has a loop, is too large, or cannot be evaluated.  Points on
+    which the callee itself panics are skipped: they are that callee's own panic sites, not a value."""
+    from .. import evalx
+    cache = {}
+    tabs = _table_values_factory(F)
+
+    def get(path, ranges, env):
+        key = (path, ranges, tuple(sorted((env or {}).items())) if env else None)
+        if key in cache:
+            return cache[key]
+        cache[key] = None
+        cb = F.fn(path)
+        npts = 1
+        for lo, hi in ranges:
+            if lo < 0 or hi < lo:
+                return None
+            npts *= (hi - lo + 1)
+        if cb is None or cb.mir is None or npts > 4096 or cb.mir.get("arg_count") != len(ranges):
+            return None
+        S2 = sym.Sym(cb)
+        try:
+            paths = S2.paths()
+        except sym.PathLimit:
+            return None
+        if any(p_.end == "loop" for p_ in paths):
+            return None
+        evalx.set_target(F)
+        cps = {k_: v_ for k_, v_ in (env or {}).items() if not k_.startswith("assoc:")}
+        import itertools
+        lo_, hi_ = None, None
+        for pt in itertools.product(*[range(a, b_ + 1) for a, b_ in ranges]):
+            try:
+                v = evalx.run(S2, F, paths, {"params": {i + 1: x for i, x in enumerate(pt)}, "cparams": cps}, tabs)
+            except evalx.Panics:
+                continue
+            except (evalx.Unknown, RecursionError):
+                return None
+            if not isinstance(v, int):
+                return None
+            lo_ = v if lo_ is None else min(lo_, v)
+            hi_ = v if hi_ is None else max(hi_, v)
+        if lo_ is None:
+            return None
+        cache[key] = (lo_, hi_)
+        return cache[key]
+
+    return get
+
 TABLES = [None]
 
 
@@ -301,6 +355,16 @@ def irange(e, B, tyof, env=None, depth=0):
                 vals = vals[ir[0]:ir[1] + 1]
             if vals and isinstance(vals[0], int):
                 r = (min(vals), max(vals))
+    if k == "call" and isinstance(e[1], str) and e[1] in RET_SUMMARY[0]:
+        rr = RET_SUMMARY[0][e[1]]
+        r = rr if r is None else (max(r[0], rr[0]), min(r[1], rr[1]))
+    elif k == "call" and RETRANGE[0] is not None and isinstance(e[1], str) and not e[1].startswith(("core::", "alloc::", "std::")) and 1 <= len(e[2]) <= 3:
+        # a small pure crate function: its exact value range over the (small) product of its argument ranges
+        ars = [irange(a_, B, tyof, env, depth + 1) for a_ in e[2]]
+        if all(x is not None for x in ars):
+            rr = RETRANGE[0](e[1], tuple(ars), env)
+            if rr is not None:
+                r = rr if r is None else (max(r[0], rr[0]), min(r[1], rr[1]))
     if k == "bin":
         a = irange(e[2], B, tyof, env, depth + 1)
         b = irange(e[3], B, tyof, env, depth + 1)
@@ -384,6 +448,7 @@ def discharge(F, sites, envs):
     _target(F)
     TABLES[0] = _table_values_factory(F)
     PRED[0] = _pred_factory(F)
+    RETRANGE[0] = _retrange_factory(F)
     by_fn = {}
     for s in sites:
         by_fn.setdefault(s.body.path, []).append(s)
@@ -718,8 +783,32 @@ def one(F, S, b, p, s, envs):
                     ok_all = False
             if ok_all:
                 return "interval-no-overflow"
-            if cond[1] == "Add" and _bounded_counter(S, b, p, s, cond):
-                return "counter-bounded-by-iterations"
+            if cond[1] == "Add":
+                def _trip(it_local):
+                    # static upper bound of the number of items the iterator held in it_local can yield (max over variants), or None
+                    comp = iter_components(ITER[0](it_local)) if ITER[0] is not None else None
+                    if not comp:
+                        return None
+                    def one_len(c_):
+                        if c_[0] == "zip":
+                            ls = [one_len(c_[1]), one_len(c_[2])]
+                            ls = [x for x in ls if x is not None]
+                            return min(ls) if ls else None
+                        base = c_[1]
+                        vals_ = []
+                        for env in env_list:
+                            v_ = _slen(F, b, base, B, env, tyof)
+                            if v_ is None:
+                                return None
+                            vals_.append(v_)
+                        L_ = max(vals_) if vals_ else None
+                        if L_ is not None and c_[0] == "chunk":
+                            L_ = -(-L_ // c_[2])
+                        return L_
+                    ls = [one_len(c_) for c_ in comp]
+                    return ls[0] if len(ls) == 1 else None
+                if _bounded_counter(S, b, p, s, cond, _trip, lambda x: irange(x, B, tyof, env_list[0] if env_list else None)):
+                    return "counter-bounded-by-iterations"
             # relational: a - b with b <= a known
             if cond[1] == "Sub":
                 a_, b_ = cond[2], cond[3]
@@ -890,37 +979,117 @@ BOUNDED_ITER = re.compile(r"^(core::slice::(iter::)?(Iter|IterMut|Chunks|ChunksE
 ADAPTERS = ("core::iter::Copied<", "core::iter::Cloned<", "core::iter::Rev<", "core::iter::Enumerate<", "core::iter::adapters::")
 
 
-def _bounded_counter(S, b, p, s, cond):
-    """`acc + 1` where the usize local acc is initialised to the constant 0 before an iterator-driven loop and its only other
-    assignment is this increment, executed at most once per iteration of a loop over a slice iterator or a usize range: before the
-    k-th increment acc <= k - 1 <= usize::MAX - 1, so the addition cannot overflow."""
+def _index_loop_trips(b, h, L):
+    """K if the loop with header h is `while i < K` (K a constant) where the local i is 0 before the loop and its only other
+    assignment is `i = i + 1`, once per cycle; else None"""
+    blk = b.blocks[h]
+    t = blk["term"]
+    d = t.get("discr") or {}
+    dl = (d.get("move") or d.get("copy") or {}).get("l")
+    cmp_ = None
+    for st in blk["stmts"]:
+        if st.get("rv") == "bin" and st.get("op") == "Lt" and (st.get("dst") or {}).get("l") == dl and "p" not in st["dst"]:
+            cmp_ = st
+    if cmp_ is None or "const" not in cmp_["b"] or not isinstance(cmp_["b"]["const"].get("v"), int):
+        return None
+    # the body is entered on the true edge only
+    tv = [x for x in t["targets"] if x[0] == 0]
+    if len(tv) != 1 or tv[0][1] in L and t["otherwise"] in L:
+        return None
+    if t["otherwise"] not in L:
+        return None
+    K = cmp_["b"]["const"]["v"]
+    il = (cmp_["a"].get("copy") or cmp_["a"].get("move") or {})
+    if "p" in il or "l" not in il:
+        return None
+    i = il["l"]
+    for st in blk["stmts"]:  # `_t = copy i` in the header
+        if (st.get("dst") or {}).get("l") == i and st.get("rv") == "use" and "p" not in st["dst"]:
+            src = (st["op"].get("copy") or st["op"].get("move") or {})
+            if "p" in src or "l" not in src:
+                return None
+            i = src["l"]
+    defs = b.defs().get(i, [])
+    inside = [d_ for d_ in defs if d_[0] in L]
+    outside = [d_ for d_ in defs if d_[0] not in L]
+    if len(inside) != 1 or len(outside) != 1 or inside[0][1] == "term" or outside[0][1] == "term":
+        return None
+    o = outside[0]
+    if o[2].get("rv") != "use" or (o[2]["op"].get("const") or {}).get("v") != 0 or not b.dominates(o[0], h):
+        return None
+    for blk2 in b.blocks:
+        for st in blk2["stmts"]:
+            if st.get("rv") in ("ref", "rawptr") and st.get("place", {}).get("l") == i:
+                return None
+    ins = inside[0]
+    src = ins[2]["op"].get("move") or ins[2]["op"].get("copy") if ins[2].get("rv") == "use" else None
+    if not src or src.get("p") is None or len(src["p"]) != 1 or src["p"][0].get("f") != 0:
+        return None
+    dt = b.single_def(src["l"])
+    if dt is None or dt[1] == "term" or dt[2].get("rv") != "bin" or not dt[2]["op"].startswith("Add"):
+        return None
+    ops = [dt[2]["a"], dt[2]["b"]]
+    is_i = lambda o_: (o_.get("copy") or o_.get("move") or {}).get("l") == i and "p" not in (o_.get("copy") or o_.get("move") or {})
+    is_one = lambda o_: (o_.get("const") or {}).get("v") == 1
+    if not ((is_i(ops[0]) and is_one(ops[1])) or (is_i(ops[1]) and is_one(ops[0]))):
+        return None
+    if ins[0] in b.reachable_from(b.succs(ins[0])[0], avoid=(h,)):
+        return None
+    return K
+
+
+def _bounded_counter(S, b, p, s, cond, trip=None, rng=None):
+    """`acc + x` with 0 <= x <= m (m a small constant) where the unsigned local acc is initialised to the constant 0 before an
+    iterator-driven loop and its only other assignment is this addition, executed at most once per iteration: before the k-th
+    addition acc <= m*(k-1).  For a usize acc and m = 1 any slice iterator or usize range is short enough (k <= isize::MAX
+    resp. usize::MAX); otherwise the trip count must be statically bounded (iteration over arrays / windows of known length)
+    with m * trips <= the type's maximum."""
     xs = [cond[2], cond[3]]
-    if C(1) not in xs:
+    accs = [x for x in xs if x[0] == "local"]
+    if len(accs) != 1 or not p.blocks:
         return False
-    acc = xs[0] if xs[1] == C(1) else xs[1]
-    if acc[0] != "local" or not p.blocks:
+    acc = accs[0]
+    inc = xs[1] if xs[0] == acc else xs[0]
+    ir = (inc[1], inc[1]) if inc[0] == "const" else (rng(inc) if rng else None)
+    if ir is None or ir[0] < 0 or ir[1] > 65535:
         return False
+    m_inc = ir[1]
     a = acc[1]
     h = p.blocks[0]
     t = b.blocks[h]["term"]
-    if t["t"] != "call" or not (engine.callee_path(t) or "").endswith("::next") or len(t["args"]) != 1:
-        return False
     ty = b.local_ty(a)
-    if not ty or ty.get("s") != "usize":
+    tr_ = type_range(ty.get("s")) if ty else None
+    if tr_ is None or tr_[0] != 0:
         return False
-    # the iterator: next(&mut it)
-    op = t["args"][0]
-    l0 = (op.get("move") or op.get("copy") or {}).get("l")
-    d0 = b.single_def(l0) if l0 is not None else None
-    for _ in range(4):  # reborrows: _a = &mut *_b; _b = &mut it
-        if d0 is not None and d0[1] != "term" and d0[2].get("rv") == "ref" and d0[2]["place"].get("p") == ["*"]:
-            d0 = b.single_def(d0[2]["place"]["l"])
-    if d0 is None or d0[1] == "term" or d0[2].get("rv") != "ref" or "p" in d0[2]["place"]:
-        return False
-    ity = (b.local_ty(d0[2]["place"]["l"]) or {}).get("s", "")
-    while ity.startswith(ADAPTERS) and "<" in ity:
-        ity = ity.split("<", 1)[1]
-    if not BOUNDED_ITER.match(ity):
+    fwd0 = b.reachable_from(h)
+    L0 = {x for x in fwd0 if b.dominates(h, x) and h in b.reachable_from(x)}
+    ity = ""
+    if t["t"] == "switch":
+        # index loop: `while i < K` with i = 0 before the loop and i += 1 once per cycle: at most K cycles
+        trips = _index_loop_trips(b, h, L0)
+        if trips is None:
+            return False
+    else:
+        if t["t"] != "call" or not (engine.callee_path(t) or "").endswith("::next") or len(t["args"]) != 1:
+            return False
+        # the iterator: next(&mut it)
+        op = t["args"][0]
+        l0 = (op.get("move") or op.get("copy") or {}).get("l")
+        d0 = b.single_def(l0) if l0 is not None else None
+        for _ in range(4):  # reborrows: _a = &mut *_b; _b = &mut it
+            if d0 is not None and d0[1] != "term" and d0[2].get("rv") == "ref" and d0[2]["place"].get("p") == ["*"]:
+                d0 = b.single_def(d0[2]["place"]["l"])
+        if d0 is None or d0[1] == "term" or d0[2].get("rv") != "ref" or "p" in d0[2]["place"]:
+            return False
+        it_local = d0[2]["place"]["l"]
+        ity = (b.local_ty(it_local) or {}).get("s", "")
+        while ity.startswith(ADAPTERS) and "<" in ity:
+            ity = ity.split("<", 1)[1]
+        trips = trip(it_local) if trip else None
+    if trips is not None:
+        if m_inc * trips > tr_[1]:
+            return False
+    elif not (BOUNDED_ITER.match(ity) and ty.get("s") == "usize" and m_inc <= 1):
         return False
     fwd = b.reachable_from(h)
     L = {x for x in fwd if b.dominates(h, x) and h in b.reachable_from(x)}
@@ -946,8 +1115,34 @@ def _bounded_counter(S, b, p, s, cond):
         return False
     ops = [dt[2]["a"], dt[2]["b"]]
     is_acc = lambda o_: (o_.get("copy") or o_.get("move") or {}).get("l") == a and "p" not in (o_.get("copy") or o_.get("move") or {})
-    is_one = lambda o_: (o_.get("const") or {}).get("v") == 1
-    if not ((is_acc(ops[0]) and is_one(ops[1])) or (is_acc(ops[1]) and is_one(ops[0]))):
+    if not (is_acc(ops[0]) or is_acc(ops[1])):
+        return False
+    # the addend over ALL paths (not just this one): a constant, or a local every definition of which is a constant
+    other = ops[1] if is_acc(ops[0]) else ops[0]
+    if "const" in other:
+        all_max = other["const"].get("v")
+    else:
+        ol = (other.get("copy") or other.get("move") or {})
+        if "p" in ol or "l" not in ol:
+            return False
+        vals_ = []
+        for d_ in b.defs().get(ol["l"], []):
+            if d_[1] == "term":
+                cp_ = engine.callee_path(d_[2]) or ""
+                if cp_ in RET_SUMMARY[0]:
+                    vals_.append(RET_SUMMARY[0][cp_][1])  # the result of a call whose value range another rule decides
+                    continue
+                return False
+            if d_[2].get("rv") != "use" or "const" not in d_[2]["op"]:
+                return False
+            vals_.append(d_[2]["op"]["const"].get("v"))
+        all_max = max(vals_) if vals_ and all(isinstance(v_, int) for v_ in vals_) else None
+    if not isinstance(all_max, int) or all_max < 0 or all_max > 65535:
+        return False
+    if trips is not None:
+        if all_max * trips > tr_[1]:
+            return False
+    elif all_max > 1:
         return False
     # the increment is not inside an inner loop: its block cannot reach itself without passing the header
     inner = b.reachable_from(b.succs(i[0])[0], avoid=(h,)) if b.succs(i[0]) else set()
@@ -1205,6 +1400,8 @@ def _slen(F, b, e, B, env, tyof):
             return _slen(F, b, inner, B, env, tyof)
         return None
     if e[0] == "call":
+        if len(e[2]) == 1 and e[1].endswith(("::as_slice", "::as_mut_slice", "::as_ref", "::as_mut")) and e[1].startswith(("core::array::", "core::slice::", "<[T; N] as ", "<[T] as ")):
+            return _slen(F, b, e[2][0], B, env, tyof)  # a view of the whole array / slice
         if e[1].endswith(layout.INDEX_FNS) and len(e[2]) == 2 and e[2][1][0] == "agg":
             rk = e[2][1][1].rsplit("::", 1)[-1]
             if rk == "Range":
